@@ -73,6 +73,9 @@ pub enum Recipe {
     },
     /// base64 of arbitrary bytes
     Bytes(HexBytes),
+    /// base64 of the ISO-8859-1 bytes of `u:p` of pair i (characters above U+00FF as `?`): the same credentials in the
+    /// legacy charset are not the configured text unless it is all ASCII
+    Latin1(u8),
     /// an arbitrary string as the whole field value
     Raw(String),
     Missing,
@@ -300,6 +303,7 @@ fn value_of(case: &Case) -> Option<String> {
             basic(&t)
         }
         Recipe::Bytes(b) => basic(&b.0),
+        Recipe::Latin1(i) => basic(&text(case, *i).chars().map(|c| if (c as u32) < 0x100 { c as u32 as u8 } else { b'?' }).collect::<Vec<u8>>()),
         Recipe::Raw(s) => s.clone(),
         Recipe::Missing => return None,
     })
@@ -319,6 +323,7 @@ fn recipe_label(r: &Recipe) -> &'static str {
         Recipe::B64 { .. } => "invalid-base64",
         Recipe::NonUtf8 { at, .. } => ["non-utf8:first", "non-utf8:middle", "non-utf8:last"][*at as usize % 3],
         Recipe::Bytes(_) => "arbitrary-bytes",
+        Recipe::Latin1(_) => "latin1-encoding",
         Recipe::Raw(_) => "arbitrary-value",
         Recipe::Missing => "missing-header",
     }
@@ -335,7 +340,8 @@ fn recipe_index(r: &Recipe) -> Option<u8> {
         | Recipe::NoSpace(i)
         | Recipe::Spaces { i, .. }
         | Recipe::B64 { i, .. }
-        | Recipe::NonUtf8 { i, .. } => Some(*i),
+        | Recipe::NonUtf8 { i, .. }
+        | Recipe::Latin1(i) => Some(*i),
         _ => None,
     }
 }
@@ -386,6 +392,10 @@ fn pair_shape(case: &Case, i: usize) -> &'static str {
 fn user() -> impl Strategy<Value = String> {
     prop_oneof![
         4 => "[a-z]{1,8}",
+        // characters of the Latin-1 supplement (one byte in ISO-8859-1, two in UTF-8)
+        1 => "[a-zß-ÿ¡-¿]{1,6}",
+        // long: the pair's text exceeds any small fixed buffer (the request head still fits 1 KiB)
+        1 => "[a-z0-9]{90,240}",
         3 => "[ -9;-~]{0,10}",
         2 => "\\PC{0,8}".prop_map(|s| s.replace(':', "")),
         1 => Just(String::new()),
@@ -394,6 +404,8 @@ fn user() -> impl Strategy<Value = String> {
 fn password() -> impl Strategy<Value = String> {
     prop_oneof![
         3 => "[a-z0-9]{1,8}",
+        1 => "[a-zß-ÿ¡-¿]{1,6}",
+        1 => "[a-z0-9]{90,240}",
         3 => "[ -~]{0,12}",
         3 => "[a-z]{0,3}:[a-z:]{0,6}",
         2 => "\\PC{0,8}",
@@ -497,6 +509,7 @@ fn recipe_strategy() -> impl Strategy<Value = Recipe> {
         4 => (any::<u8>(), 0u8..8, pos).prop_map(|(i, kind, pos)| Recipe::B64 { i, kind, pos }),
         6 => (any::<u8>(), 0u8..3, not_utf8()).prop_map(|(i, at, bytes)| Recipe::NonUtf8 { i, at, bytes }),
         2 => vec(any::<u8>(), 0..24).prop_map(|b| Recipe::Bytes(HexBytes(b))),
+        2 => any::<u8>().prop_map(Recipe::Latin1),
         2 => raw_value().prop_map(Recipe::Raw),
         1 => Just(Recipe::Missing),
     ]
@@ -581,7 +594,7 @@ impl C13 {
 impl Property for C13 {
     type Case = Case;
     const ID: &'static str = "C13";
-    const RULE: &'static str = "generated: 1–4 (user, password) pairs — users without `:`, passwords with colons, empty parts, Unicode and control characters, later pairs derived from earlier ones (password/user extended or shortened by a character, same user, same password, `p:x`, swapped) — configured as the bare BasicAuth (one pair) or [BasicAuth; N], over &'static str or String × an Authorization value: correct for pair i; user of i with password of j; the decoded text with a character inserted/removed/replaced at a sampled position (start, end, around the colon); no colon; other scheme words and letter cases; `Basic` without space; extra spaces (doubled, leading, trailing, inside, second word); damaged base64 (padding removed/added, url-safe alphabet, foreign symbol, truncated, extended, unused bits set); credentials with bytes that are not UTF-8 at the start, in the middle and at the END; base64 of arbitrary bytes; arbitrary printable values; missing header × 7 methods. A router with the fang on the root is built per case; the correct value of the pair the recipe is derived from is sent first (control), then the case's value. Oracle: own RFC 4648 encoder; the value equals `Basic ` + base64(u:p) of a configured pair ⇒ 200 and the handler ran once; otherwise 401, every WWW-Authenticate value starts with `Basic`, the handler did not run; never a panic. Non-trivial = a refused value derived from a configured pair by one change, or an admitted value when several pairs are configured; distinct by case.";
+    const RULE: &'static str = "generated: 1–4 (user, password) pairs — users without `:`, passwords with colons, empty parts, Unicode and control characters, Latin-1 supplement letters, parts of 90–240 characters, later pairs derived from earlier ones (password/user extended or shortened by a character, same user, same password, `p:x`, swapped) — configured as the bare BasicAuth (one pair) or [BasicAuth; N], over &'static str or String × an Authorization value: correct for pair i; user of i with password of j; the decoded text with a character inserted/removed/replaced at a sampled position (start, end, around the colon); no colon; other scheme words and letter cases; `Basic` without space; extra spaces (doubled, leading, trailing, inside, second word); damaged base64 (padding removed/added, url-safe alphabet, foreign symbol, truncated, extended, unused bits set); credentials with bytes that are not UTF-8 at the start, in the middle and at the END; base64 of arbitrary bytes; the ISO-8859-1 bytes of the configured text; arbitrary printable values; missing header × 7 methods. A router with the fang on the root is built per case; the correct value of the pair the recipe is derived from is sent first (control), then the case's value. Oracle: own RFC 4648 encoder; the value equals `Basic ` + base64(u:p) of a configured pair ⇒ 200 and the handler ran once; otherwise 401, every WWW-Authenticate value starts with `Basic`, the handler did not run; never a panic. Non-trivial = a refused value derived from a configured pair by one change, or an admitted value when several pairs are configured; distinct by case.";
     const ASSUMPTIONS: &'static [&'static str] = &[
         "usernames contain no `:` (RFC 7617)",
         "don't-care: letter case of the scheme word with otherwise correct credentials; optional whitespace around the field value (C02's soft class)",
@@ -593,7 +606,7 @@ impl Property for C13 {
         C13 { selftest: selftest() }
     }
     fn n_cases(&self, tier: Tier) -> u64 {
-        tier.pick(300_000, 6_000_000)
+        tier.pick(1_000_000, 6_000_000)
     }
     fn chunk(&self, _tier: Tier) -> u64 {
         1000
@@ -605,7 +618,9 @@ impl Property for C13 {
             Recipe::Delete { i, .. } | Recipe::Replace { i, .. } => !case.pairs.is_empty() && !text(case, *i).is_empty(),
             _ => true,
         };
-        (1..=4).contains(&case.pairs.len()) && case.pairs.iter().all(|(u, _)| !u.contains(':')) && recipe_ok
+        // the request head has to fit the 1 KiB request buffer (C02's subject): request line, Host and the field name take < 80 bytes
+        let fits = (1..=4).contains(&case.pairs.len()) && value_of(case).map_or(true, |v| v.len() <= 900);
+        (1..=4).contains(&case.pairs.len()) && case.pairs.iter().all(|(u, _)| !u.contains(':')) && recipe_ok && fits
     }
     fn strategy(&self, _tier: Tier) -> BoxedStrategy<Case> {
         let method = prop_oneof![
